@@ -2268,7 +2268,8 @@ evbuffer_read_setup_vecs_(struct evbuffer *buf, ev_ssize_t howmuch,
 	}
 
 	chain = *firstchainp;
-	EVUTIL_ASSERT(chain);
+	/* there may be no chain with space if no space was asked for */
+	EVUTIL_ASSERT(chain || howmuch == 0);
 	for (i = 0; i < n_vecs_avail && so_far < (size_t)howmuch; ++i) {
 		size_t avail = (size_t) CHAIN_SPACE_LEN(chain);
 		if (avail > (howmuch - so_far) && exact)
